@@ -67,6 +67,7 @@ def Outcome.name : Outcome → String
 inductive Node (τ : Type) where
   | file (b : Bytes)
   | dir (t : τ)
+  deriving DecidableEq
 
 /-- the `sha256` member of an ack: missing, the hex of some digest, or any other JSON value -/
 inductive ShaField where
@@ -140,7 +141,8 @@ structure Rx (τ : Type) where
   dfr : DSt := .absent              -- the Deferred object handed to _transfer_data
   connLost : Bool := false          -- connectionLost() has run
   -- FileConsumer(f, progress, hasher)
-  spool : Bytes := []               -- bytes written to f (dest+".tmp", or the SpooledTemporaryFile)
+  spool : Bytes := []               -- bytes handed to f.write, in order
+  disk : Bytes := []                -- content of the file behind f (dest+".tmp", or the SpooledTemporaryFile)
   hashed : Bytes := []              -- hasher input
   -- filesystem
   tmpExists : Bool := false         -- dest+".tmp" exists
@@ -151,15 +153,22 @@ structure Rx (τ : Type) where
   acks : List AckMsg := []          -- records sent back on the pipe
   closed : Bool := false            -- record_pipe.close()
 
-/-- `_handle_file`: `open(abs_destname + ".tmp", "wb")`; `_handle_directory`: a
+/-- `f.write(r)` at position `pos` of a file whose content is `d`: overwrite in place, extend at the end -/
+def fileWrite (d : Bytes) (pos : Nat) (r : Bytes) : Bytes :=
+  d.take pos ++ r ++ d.drop (pos + r.length)
+
+/-- `_handle_file`: `open(abs_destname + ".tmp", "wb")`; `_handle_directory`: a fresh
     SpooledTemporaryFile (nothing on disk under the destination).  `_decide_destname` has made sure
-    nothing exists at the destination (C05). -/
-def rxOpen {τ : Type} (xfersize : Nat) (dirMode : Bool) : Rx τ :=
-  { xfersize := xfersize, dirMode := dirMode, tmpExists := !dirMode }
+    nothing exists at the destination (C05), but a `dest+".tmp"` may be lying around from an
+    earlier, interrupted transfer: `stale` is its content.  Mode `"wb"` truncates, so whatever was
+    there is gone: the file starts empty.  (Opening without truncation would be `disk := stale`.) -/
+def rxOpen {τ : Type} (xfersize : Nat) (dirMode : Bool) (stale : Option Bytes) : Rx τ :=
+  let _ := stale
+  { xfersize := xfersize, dirMode := dirMode, tmpExists := !dirMode, disk := [] }
 
 /-- `_writeToConsumer(record)` with `FileConsumer.write` inlined -/
 def writeToConsumer {τ : Type} (s : Rx τ) (r : Bytes) : Rx τ :=
-  let s1 := { s with spool := s.spool ++ r, hashed := s.hashed ++ r }
+  let s1 := { s with disk := fileWrite s.disk s.spool.length r, spool := s.spool ++ r, hashed := s.hashed ++ r }
   let s2 := { s1 with written := s1.written + r.length }
   match s2.expected with
   | none => s2
@@ -195,11 +204,11 @@ def connectionLost {τ : Type} (s : Rx τ) : Rx τ :=
 
 /-- `_write_file`: `f.close(); os.rename(tmp_name, self.abs_destname)` -/
 def writeFile {τ : Type} (s : Rx τ) : Rx τ :=
-  { s with tmpExists := false, final := some (.file s.spool) }
+  { s with tmpExists := false, final := some (.file s.disk) }
 
 /-- `_write_directory`: unpack the spooled zip below `abs_destname` -/
 def writeDirectory {τ : Type} (Z : Zip τ) (s : Rx τ) : Except Err (Rx τ) :=
-  match Z.unzip s.spool with
+  match Z.unzip s.disk with
   | none => .error .badZipFile
   | some t => .ok { s with final := some (.dir t) }
 
@@ -252,8 +261,8 @@ def evStep {τ : Type} (H : Hash) (Z : Zip τ) (s : Rx τ) : Ev → Rx τ
   | .lost => evLost H Z s
 
 /-- the receiver after any sequence of events -/
-def runRx {τ : Type} (H : Hash) (Z : Zip τ) (xfersize : Nat) (dirMode : Bool) (evs : List Ev) : Rx τ :=
-  evs.foldl (evStep H Z) (rxOpen xfersize dirMode)
+def runRx {τ : Type} (H : Hash) (Z : Zip τ) (xfersize : Nat) (dirMode : Bool) (stale : Option Bytes) (evs : List Ev) : Rx τ :=
+  evs.foldl (evStep H Z) (rxOpen xfersize dirMode stale)
 
 /-- the records among the events, in order -/
 def records : List Ev → List Bytes
@@ -271,6 +280,7 @@ def ackSeen {τ : Type} (s : Rx τ) (delivered : Bool) : Option AckMsg :=
 ```
 rx file|dir <xfersize> [refuse]   -> summary          (_handle_file / _handle_directory opened f; refuse = the
                                                        extraction will reject the archive)
+rx file <xfersize> stale <len>    -> summary          (the same, with a dest+".tmp" of <len> bytes already there)
 send <hex src>                    -> n=<records> lens=<l1,l2,…|-> adler=<adler32 of everything hashed>
 deliver <n>                       -> summary          (the next n records of the model sender reach the receiver)
 rec <hex>…                        -> summary          (explicit records reach the receiver)
@@ -308,7 +318,7 @@ structure DrvSt where
   hashed : Bytes
   refuse : Bool            -- the extraction will refuse the archive (`rx dir <n> refuse`)
 
-def drvInit : DrvSt := { rx := rxOpen 0 false, pending := [], hashed := [], refuse := false }
+def drvInit : DrvSt := { rx := rxOpen 0 false none, pending := [], hashed := [], refuse := false }
 
 def DrvSt.zip (s : DrvSt) : Zip Bytes := if s.refuse then toyZipRefuse else toyZip
 
@@ -332,13 +342,19 @@ def step (s : DrvSt) (line : String) : DrvSt × String :=
   | ["rx", mode, n] =>
     match n.toNat? with
     | some x =>
-      let rx : Rx Bytes := rxOpen x (mode == "dir")
+      let rx : Rx Bytes := rxOpen x (mode == "dir") none
       ({ s with rx := rx, refuse := false }, showRx rx)
     | none => (s, "bad-op")
+  | ["rx", "file", n, "stale", l] =>
+    match n.toNat?, l.toNat? with
+    | some x, some len =>
+      let rx : Rx Bytes := rxOpen x false (some (List.replicate len 170))
+      ({ s with rx := rx, refuse := false }, showRx rx)
+    | _, _ => (s, "bad-op")
   | ["rx", "dir", n, "refuse"] =>
     match n.toNat? with
     | some x =>
-      let rx : Rx Bytes := rxOpen x true
+      let rx : Rx Bytes := rxOpen x true none
       ({ s with rx := rx, refuse := true }, showRx rx)
     | none => (s, "bad-op")
   | ["send", h] =>
